@@ -11,10 +11,11 @@ namespace SalsaVerif.Proofs.CycleRev
 open SalsaVerif.Model
 open SalsaVerif.Model.CycleRev
 
-/-- no `add` and no `gate` anywhere: the program lies in the language of `Model/Cycle.lean`. -/
+/-- no `add` anywhere: the program lies in the (monotone) language of `Model/Cycle.lean`, which
+    has the value-controlled `gate`. -/
 def noAddE : Expr → Bool
   | .add _ _ => false
-  | .gate _ _ => false
+  | .gate c a => noAddE c && noAddE a
   | .union a b => noAddE a && noAddE b
   | .inter a b => noAddE a && noAddE b
   | .ite _ a b => noAddE a && noAddE b
